@@ -1,5 +1,7 @@
 import ModVerif.AuditCmd
 import ModVerif.Props.C02
 import ModVerif.Tie.Modfile
+import ModVerif.Tie.FnModfile
 #audit_module ModVerif.Props.C02
 #audit_module ModVerif.Tie.Modfile
+#audit_module ModVerif.Tie.FnModfile
